@@ -96,6 +96,9 @@ func (e *Engine) startForEach(st *State, recv *StructV, iter *FuncV, resT types.
 func (e *Engine) stepNative(st *State) bool {
 	fr := st.fr
 	ns := fr.native
+	if ns.kind == "sortslice" {
+		return e.stepSortSlice(st)
+	}
 	finish := func() bool {
 		st.fr = fr.caller
 		return true
